@@ -4,7 +4,7 @@ theorems depend on are re-read from the source with `ast` on every run; any othe
 
   viz_collect_defaults  defaults of collect_agent_data(color=, marker=, zorder=) as palette indices
   viz_size_base         the 180 of  s_default = (180 / max(w, h)) ** 2  in all five draw_* functions
-  viz_hex_parity        draw_hex_grid:  ((loc[:, 1] - K) % 2)   and   _get_hexmesh:  (row % 2 == P)
+  (the hex centre formulas are translated as code by harness/tables/viz_code.py)
 """
 import ast
 
@@ -127,5 +127,4 @@ def fb_hex_parity():
 CONSTRUCTS = [
     ("viz_collect_defaults", SRC, c_collect_defaults, fb_collect_defaults),
     ("viz_size_base", SRC, c_size_base, fb_size_base),
-    ("viz_hex_parity", SRC, c_hex_parity, fb_hex_parity),
 ]
